@@ -40,6 +40,11 @@ type Runner[T runnable] struct {
 
 	serverErrors chan error
 	logger       *slog.Logger
+
+	// the children started by the most recent boot(): their context and their goroutines.
+	// Guarded by runnablesMu.
+	genCancel context.CancelFunc
+	genDone   *sync.WaitGroup
 }
 
 // NewRunner creates a new CompositeRunner instance with the provided configuration callback and options.
@@ -188,11 +193,19 @@ func (r *Runner[T]) boot(ctx context.Context) error {
 
 	logger.Debug("Starting child runnables...", "count", len(cfg.Entries))
 
+	// Every boot gets its own context and goroutine group, so that stopAllRunnables can
+	// reach a child whose goroutine has been started but has not entered Run() yet.
+	ctx, r.genCancel = context.WithCancel(ctx)
+	genDone := &sync.WaitGroup{}
+	genDone.Add(len(cfg.Entries))
+	r.genDone = genDone
+
 	// Use a temporary WaitGroup to track that all goroutines have started.
 	var startWg sync.WaitGroup
 	startWg.Add(len(cfg.Entries))
 	for i, e := range cfg.Entries {
 		go func(idx int, entry RunnableEntry[T]) {
+			defer genDone.Done()
 			startWg.Done()
 			r.startRunnable(ctx, entry.Runnable, idx)
 		}(i, e)
@@ -269,6 +282,16 @@ func (r *Runner[T]) stopAllRunnables() error {
 
 	// Wait for all runnables to complete stopping
 	wg.Wait()
+
+	// A child goroutine launched by the last boot may not have called Run() yet when its
+	// runnable's Stop() returned (a Stop() on a runnable whose previous Run() has finished
+	// returns at once). Cancel that boot's context and wait for its goroutines, so that no
+	// child of this generation is left to start after it was stopped.
+	if r.genCancel != nil {
+		r.genCancel()
+		r.genDone.Wait()
+		r.genCancel, r.genDone = nil, nil
+	}
 	return nil
 }
 
